@@ -229,6 +229,13 @@ class _SymNum(_Sym):
     def conjugate(self):
         return self
 
+    # numpy.log / numpy.exp on an object array call these: uninterpreted functions with ground inverse-pair axioms
+    def log(self):
+        return ulog(self)
+
+    def exp(self):
+        return uexp(self)
+
     # numpy scalars answer these too (0-d behaviour)
     def sum(self, *a, **k):
         return self
@@ -415,6 +422,7 @@ def _sdiv(a, b):
     ta = term(a) if is_sym(a) else _num(a)
     ta = _real(ta)
     key = (ta.get_id(), tb.get_id())
+    e._alive.extend((ta, tb))
     q = e.div_cache.get(key)
     if q is None:
         q = e.fresh_real("q")
@@ -435,6 +443,7 @@ def ssqrt(a):
         a = SymReal(z3.RealVal(f))
     ta = _real(term(a))
     key = ("sqrt", ta.get_id())
+    e._alive.append(ta)
     s = e.div_cache.get(key)
     if s is None:
         if e.decide(ta < 0):
@@ -443,6 +452,30 @@ def ssqrt(a):
         e.div_cache[key] = s
         e.add_definition(z3.And(s.t >= 0, s.t * s.t == ta))
     return s
+
+
+ULOG = z3.Function("LOG", z3.RealSort(), z3.RealSort())
+UEXP = z3.Function("EXP", z3.RealSort(), z3.RealSort())
+
+
+def ulog(v):
+    if _isnan(v):
+        return float("nan")
+    e = cur()
+    t = _real(term(v))
+    r = ULOG(t)
+    e.add_definition(z3.Implies(t > 0, UEXP(r) == t))
+    return SymReal(r)
+
+
+def uexp(v):
+    if _isnan(v):
+        return float("nan")
+    e = cur()
+    t = _real(term(v))
+    r = UEXP(t)
+    e.add_definition(z3.And(ULOG(r) == t, r > 0))
+    return SymReal(r)
 
 
 def smax(a, b):
@@ -650,6 +683,7 @@ class Engine:
         self.trail = []
         self.inputs = {}
         self.div_cache = {}
+        self._alive = []
         self._squares = {}
         self.decided = {}
         self.nfresh = 0
@@ -751,6 +785,7 @@ class Engine:
     def quotient_of(self, a, b):
         ta, tb = _real(term(a)), _real(term(b))
         key = ("quot", ta.get_id(), tb.get_id())
+        self._alive.extend((ta, tb))
         hit = self.div_cache.get(key)
         if hit is not None:
             return hit
@@ -777,6 +812,7 @@ class Engine:
         key = s.get_id()
         if key in self.decided:
             return self.decided[key]
+        self._alive.append(s)  # z3 reuses the ids of collected terms: cached keys must stay alive
         can_t = True if true_side_feasible else self._check(s)[0]
         if not can_t:
             self.decided[key] = False
